@@ -5,9 +5,10 @@ import subprocess
 import time
 
 from .. import core
+from ..core import hexb
 from ..canvasrun import CanvasRunner, gen_config
 
-MODULES = ["Robsd.Props.C11"]
+MODULES = ["Robsd.Props.C11", "Robsd.Props.C11Lock"]
 GENS = []
 
 
@@ -172,6 +173,12 @@ def run(ctx):
                           dict(info, new_or_changed={k: after.get(k, b"")[:200].decode(errors="replace") for k in changed}))
         if os.path.exists(os.path.join(root, "probe2.log")):
             ctx.violation("%s executed steps" % what, info)
+        # the same through the lock model: an invocation arriving while .running names the first one
+        nmail2 = open(os.path.join(root, "mail2.log")).read().count("=== sendmail") if os.path.exists(os.path.join(root, "mail2.log")) else 0
+        newrep = len([k for k in changed if k == "report" or k.endswith("/report")])
+        reqs.append("lock invoke %s %s %d 0 0 0" % (hexb(first_dir.encode()), hexb((other or (first_dir + ".new")).encode()), 1 if resumed else 0))
+        wants.append("%d lock=%s reports=%d mails=%d own=1" % (1 if r2.returncode != 0 else 0, hexb(lock_after.strip().encode()) if lock_after else "!", newrep, nmail2))
+        infos.append(dict(info, what=what))
         first = box.get("first")
         if first:
             analyse(ctx, slow, first, False, "first invocation (with a refused second one)")
